@@ -88,7 +88,7 @@ func c14LengthSpec(ps int, lengths []int, text bool, lay dbgen.Layout) *dbgen.Sp
 }
 
 func runC14(r *ev.Run) {
-	r.Rule = "(i) page sizes 512 (quick) and 1024 (thorough): every value length 0..3*pagesize as the payload of a table cell and of an index cell, text and blob, overflow chains contiguous and scattered; other page sizes: every length within -8..+3 of each local/overflow threshold (X, M+n(U-4), K<=X flips) for the first 3 overflow page counts; (ii) every serial type: integers at min/min+1/-1/max-1/max and both sides of every width boundary, also stored in non-minimal widths, constants 0/1, real bit patterns, text/blob lengths at the 1/2/3-byte serial type boundaries; (iii) varints of every length 1..9 in rowids, payload sizes, header sizes (records of 1..300 columns) and serial types; each family built by the independent encoder (SQLite must read the same values: conformance) and by real SQLite from the same values; read through Select, Table.Scan and Index.Scan. non-trivial = cases with overflow pages or multi-byte varints"
+	r.Rule = "(i) page sizes 512 (quick) and 1024 (thorough): every value length 0..3*pagesize as the payload of a table cell and of an index cell, text and blob, overflow chains contiguous and scattered; other page sizes: every length within -8..+3 of each local/overflow threshold (X, M+n(U-4), K<=X flips) for the first 3 overflow page counts; (ii) every serial type: integers at min/min+1/-1/max-1/max and both sides of every width boundary, also stored in non-minimal widths, constants 0/1, real bit patterns, text/blob lengths at the 1/2/3-byte serial type boundaries; (iii) varints of every length 1..9 in rowids, payload sizes, header sizes (records of 1..300 columns) and serial types; each family built by the independent encoder (SQLite must read the same values: conformance) and by real SQLite from the same values; read through Select, Table.Scan and Index.Scan (after keyed scans that start in the middle of the index). non-trivial = cases with overflow pages or multi-byte varints"
 	// ---- (i) lengths
 	type lenJob struct {
 		ps      int
@@ -232,6 +232,12 @@ func c14Read(r *ev.Run, image []byte, table, index string, spec *dbgen.Spec, img
 	if err != nil {
 		r.Violation("C14:index-open", fmt.Sprintf("%v", err), desc)
 		return
+	}
+	// a keyed scan that starts in the middle comes first: what it leaves in the page cache must not change
+	// how the cells decode afterwards
+	if wi := img.IndexRows[index]; len(wi) > 1 && len(wi[len(wi)/2]) > 0 {
+		in.ScanMin(sdb.Key{{V: wi[len(wi)/2][0]}}, func(rec sdb.Record) bool { return false })
+		in.ScanEq(sdb.Key{{V: wi[len(wi)-1][0]}}, func(rec sdb.Record) bool { return false })
 	}
 	var recs [][]interface{}
 	err = in.Scan(func(rec sdb.Record) bool { recs = append(recs, CopyRec(rec)); return false })
